@@ -163,6 +163,8 @@ func checkC14(c *Ctx) {
 	c.Rule("C14.R3", "Mark forgets only what left the window: every store of zero into the ring goes to the slot of a block cur+1 .. new (cur, new the block numbers of the old top and of the argument), and the whole ring is zeroed only when new - cur >= N; block cur and below may hold counters still inside the window (E2 linear obligations at each zero store)")
 	ringRule(c, "C14.R1", "C14.R2")
 	ringClearRule(c, "C14.R3")
+	c.Rule("C14.R4", "the filter's history is the accepted counters: in readPacketLocked, Mark is called only after Check(count) was true and AEAD Open returned nil, for the counter that was checked, in that order, and every success path marks (a counter recorded for a datagram that was not accepted makes the filter reject the genuine packet carrying it; see C03.R1) (E1 decision table)")
+	acceptOrderRule(c, "C14.R4", []string{"replay-check", "mark", "mark-after-open", "same-counter", "order"})
 }
 
 // ringRule is shared with C03.R6 (at-most-once delivery rests on the same geometry).
